@@ -8,7 +8,7 @@
 From Coq Require Import List ZArith Bool Arith Lia.
 From RecordUpdate Require Import RecordUpdate.
 From FV Require Import Kernel Accounting World.
-From FV Require Factory FactoryInv FactoryLevel.
+From FV Require Factory FactoryInv FactoryLevel FactoryCount.
 Import ListNotations.
 Open Scope Z_scope.
 
@@ -58,3 +58,17 @@ Theorem C18_fresh_edge_ok :
   forall ed, StoreB.transit (est ed) = [] -> StoreB.ready (est ed) = [] -> elastn ed = 0 -> FactoryLevel.EOK ed.
 Proof. exact FactoryLevel.fresh_edge_ok. Qed.
 Print Assumptions C18_fresh_edge_ok.
+
+(* every factory configuration whose nodes start with zero counters, every number of kernel steps:
+   num_item_generated / num_item_discarded / num_item_received of every node are the numbers of
+   generation / discard / reception events of that node in the trace (theories/Factory/FactoryCount.v) *)
+Theorem C18_counters_are_event_counts :
+  forall nodes edges order n,
+    (forall nd, In nd nodes -> ngen nd = 0%nat /\ ndisc nd = 0%nat /\ nrecv nd = 0%nat) ->
+    let w := FactoryInv.iter_fstep n (Factory.mk_world nodes edges order) in
+    forall i, (i < length (wnodes w))%nat ->
+      ngen (get_node w i) = FactoryCount.cnt (FactoryCount.is_gen i) (wlog w) /\
+      ndisc (get_node w i) = FactoryCount.cnt (FactoryCount.is_disc i) (wlog w) /\
+      nrecv (get_node w i) = FactoryCount.cnt (FactoryCount.is_recv i) (wlog w).
+Proof. exact FactoryCount.counters_are_event_counts. Qed.
+Print Assumptions C18_counters_are_event_counts.
